@@ -77,6 +77,9 @@ Section IterForm.
   Qed.
 End IterForm.
 
+Lemma nonempty_in {A} (l : list A) : l <> [] -> exists a, In a l.
+Proof. destruct l as [|a l]; [congruence|]. intros _. exists a. simpl; auto. Qed.
+
 Ltac prj := cbn [it layer1 layer1_h seen sizes_rev stored_rev all_h_rev trace_rev
                  mk_break mk_next with_trace edge_st] in *.
 
@@ -298,8 +301,8 @@ Section BfsCorrect.
 
   Lemma L0_ne : L 0 <> [].
   Proof.
-    destruct starts as [|s l] eqn:E; [congruence|]. intros He.
-    assert (In s (L 0)) by (apply L0_in; simpl; auto). rewrite He in H. destruct H.
+    destruct (nonempty_in starts starts_ne) as [s Hs]. intros He.
+    assert (In s (L 0)) by (apply L0_in; exact Hs). rewrite He in H. destruct H.
   Qed.
 
   Lemma init_inv : Inv (bfs_init G starts) /\ it (bfs_init G starts) = 1.
@@ -329,4 +332,496 @@ Section BfsCorrect.
     - unfold TraceIs. prj. simpl. destruct (stop cfg); reflexivity.
     - intros j H1 H2. prj. simpl in H2. lia.
   Qed.
+
+  (** ** One iteration preserves the invariant *)
+
+  Lemma core_with_trace st t : Core st -> Core (with_trace st t).
+  Proof. intros [H1 H2 H3 H4 H5 H6 H7 H8]. constructor; prj; assumption. Qed.
+
+  Lemma core_mk_break st : Core st -> Core (mk_break cfg st).
+  Proof. intros [H1 H2 H3 H4 H5 H6 H7 H8]. constructor; prj; assumption. Qed.
+
+  Lemma core_edge_st st nbh : Core st -> Core (edge_st G st nbh).
+  Proof. intros [H1 H2 H3 H4 H5 H6 H7 H8]. constructor; prj; assumption. Qed.
+
+  Lemma inv_edge_st st nbh : Inv st -> Inv (edge_st G st nbh).
+  Proof.
+    intros (Hc & Hh & Ht & He). split; [apply core_edge_st; exact Hc|].
+    unfold HashesUpto, TraceIs in *. prj. auto.
+  Qed.
+
+  Lemma core_next st l2 l2h :
+    Core st -> good (it st) l2 l2h -> l2 <> [] -> Core (mk_next G cfg l2 l2h st).
+  Proof.
+    intros Hc Hg Hne. pose proof (good_length _ _ _ Hg) as Hlen.
+    destruct Hc as [H1 H2 H3 H4 H5 H6 H7 H8]. constructor; prj.
+    - lia.
+    - replace (S (it st) - 1) with (it st) by lia. exact Hg.
+    - intros j Hj. destruct (Nat.eq_dec j (it st)) as [-> | Hn].
+      + eapply good_nonempty; eauto.
+      + apply H3. lia.
+    - unfold next_seen. apply SeenInv_next; auto. eapply good_HL; eauto.
+    - simpl rev. rewrite H5, seq_S, map_app. simpl. rewrite Hlen. reflexivity.
+    - intros k l Hin.
+      assert (Hcase : (it st, l2) = (k, l) \/ In (k, l) (stored_rev st)).
+      { revert Hin. destruct (lenZ l2 <=? max_store cfg)%Z; simpl; tauto. }
+      destruct Hcase as [Heq | Hold].
+      + inversion Heq; subst k l. split; [lia|]. destruct Hg as (? & ? & _). auto.
+      + destruct (H6 k l Hold) as (? & ? & ?). split; [lia | split; assumption].
+    - destruct (lenZ l2 <=? max_store cfg)%Z; [|exact H7]. simpl. constructor; [|exact H7].
+      intros Hin. apply in_map_iff in Hin. destruct Hin as ([k l] & Hk & Hin). simpl in Hk. subst k.
+      apply H6 in Hin. lia.
+    - intros k Hk. unfold lenZ. rewrite Hlen.
+      destruct (Z.leb_spec (Z.of_nat (length (L (it st)))) (max_store cfg)) as [Hb | Hb].
+      + destruct (Nat.eq_dec k (it st)) as [-> | Hn].
+        * split; [auto|]. intros _. exists l2. simpl; auto.
+        * rewrite <- H8 by lia. split; intros (l & Hin).
+          -- destruct Hin as [Heq | Hin]; [inversion Heq; lia | eauto].
+          -- exists l. simpl; auto.
+      + destruct (Nat.eq_dec k (it st)) as [-> | Hn].
+        * split.
+          -- intros (l & Hin). apply H6 in Hin. lia.
+          -- intros [Hk0 | Hle]; lia.
+        * apply H8. lia.
+  Qed.
+
+  Lemma hashes_pushed_ok st n :
+    HL n (layer1_h st) -> HashesUpto st n ->
+    if ret_hashes cfg then HashList (S n) (rev (hashes_pushed cfg st)) else hashes_pushed cfg st = [].
+  Proof.
+    unfold HashesUpto, hashes_pushed. intros Hx Hh. destruct (ret_hashes cfg); [|exact Hh].
+    simpl rev. apply HashList_snoc; auto.
+  Qed.
+
+  Lemma iter_cont_post st l2 l2h :
+    Inv st -> good (it st) l2 l2h -> l2 <> [] -> Post (it st) (iter_cont G cfg l2 l2h st).
+  Proof.
+    intros (Hc & Hh & Ht & He) Hg Hne.
+    pose proof (core_next st l2 l2h Hc Hg Hne) as Hc'.
+    pose proof (good_length _ _ _ Hg) as Hlen.
+    pose proof (c_pos _ Hc) as Hpos.
+    assert (Hh' : HashesUpto (mk_next G cfg l2 l2h st) (S (it st) - 1)).
+    { unfold HashesUpto. prj. replace (S (it st) - 1) with (S (it st - 1)) by lia.
+      apply hashes_pushed_ok; auto. eapply good_HL. apply (c_layer _ Hc). }
+    assert (He2 : explore_ok (S (it st) - 2)).
+    { replace (S (it st) - 2) with (it st - 1) by lia. exact He. }
+    unfold iter_cont, Post.
+    destruct (Z.leb_spec (max_explore cfg) (lenZ l2)) as [Hb | Hb].
+    - (* max_layer_size_to_explore reached *)
+      split; [|reflexivity]. split; [exact Hc'|]. prj. split; [exact Hh'|]. split; [exact He2|].
+      left. split.
+      + unfold TraceIs in *. prj. replace (S (it st) - 2) with (it st - 1) by lia. exact Ht.
+      + replace (S (it st) - 1) with (it st) by lia. unfold lenZ in Hb. rewrite Hlen in Hb. exact Hb.
+    - assert (He' : explore_ok (S (it st) - 1)).
+      { intros j Hj1 Hj2. destruct (Nat.eq_dec j (it st)) as [-> | Hn].
+        - unfold lenZ in Hb. rewrite Hlen in Hb. exact Hb.
+        - apply He; lia. }
+      destruct (stop cfg) as [f|] eqn:Estop.
+      + assert (Hc'' : Core (with_trace (mk_next G cfg l2 l2h st) (it st)))
+          by (apply core_with_trace; exact Hc').
+        assert (Hh'' : HashesUpto (with_trace (mk_next G cfg l2 l2h st) (it st)) (S (it st) - 1)).
+        { unfold HashesUpto in *. prj. exact Hh'. }
+        assert (Ht'' : TraceIs (with_trace (mk_next G cfg l2 l2h st) (it st)) (S (it st) - 1)).
+        { unfold TraceIs in *. prj. rewrite Estop in *. simpl rev. rewrite Ht.
+          replace (S (it st) - 1) with (S (it st - 1)) by lia. rewrite seq_S.
+          replace (1 + (it st - 1)) with (it st) by lia. reflexivity. }
+        destruct (f (it st) l2 l2h) eqn:Ef.
+        * split; [|reflexivity]. split; [exact Hc''|]. prj. split; [exact Hh''|]. split; [exact He2|].
+          right. split; [exact Ht''|]. exists f. split; [exact Estop|].
+          replace (S (it st) - 1) with (it st) by lia. exact Ef.
+        * split; [|reflexivity]. split; [exact Hc''|]. prj. split; [exact Hh''|]. split; [exact Ht''|].
+          exact He'.
+      + split; [|reflexivity]. split; [exact Hc'|]. prj. split; [exact Hh'|]. split; [|exact He'].
+        unfold TraceIs in *. prj. rewrite Estop in *. exact Ht.
+  Qed.
+
+  Lemma iter_tail_post st l2 l2h :
+    Inv st -> good (it st) l2 l2h -> Post (it st) (iter_tail G cfg l2 l2h st).
+  Proof.
+    intros Hinv Hg. unfold iter_tail. destruct l2 as [|a l2'] eqn:El2.
+    - destruct Hinv as (Hc & Hh & Ht & He). pose proof (c_pos _ Hc) as Hpos.
+      unfold Post. split; [|reflexivity]. split; [apply core_mk_break; exact Hc|]. prj.
+      split; [|split; [|split]].
+      + unfold HashesUpto. prj.
+        assert (HH : HL (it st - 1) (layer1_h st)) by (eapply good_HL; apply (c_layer _ Hc)).
+        pose proof (hashes_pushed_ok st (it st - 1) HH Hh) as HP.
+        replace (S (it st - 1)) with (it st) in HP by lia. exact HP.
+      + unfold TraceIs in *. prj. exact Ht.
+      + exact He.
+      + eapply good_empty; eauto.
+    - rewrite <- El2 in *. apply iter_cont_post; auto. rewrite El2. discriminate.
+  Qed.
+
+  (** ** The expansions compute the next true layer *)
+
+  Lemma inv_layer1_U st : Core st -> forall s, In s (layer1 st) -> U s.
+  Proof.
+    intros Hc s Hs. destruct (c_layer _ Hc) as (_ & Hset & _). apply Hset in Hs.
+    eapply L_U; eauto.
+  Qed.
+
+  Lemma inv_seen_sorted st : Core st -> forall lay, In lay (seen st) -> sortedZ lay.
+  Proof. intros Hc lay Hl. eapply SeenInv_sorted; [apply (c_seen _ Hc) | exact Hl]. Qed.
+
+  Lemma expand_plain_good st :
+    Core st -> good (it st) (fst (fst (expand_plain G st))) (snd (fst (expand_plain G st))).
+  Proof.
+    intros Hc. destruct (expand_plain G st) as [[l2 l2h] nbh] eqn:E. cbn [fst snd].
+    apply (expand_plain_spec G U U_closed NoColl IdOK) in E;
+      [|apply inv_layer1_U; exact Hc | apply inv_seen_sorted; exact Hc].
+    destruct E as (Hnd & Hal & Hs & Hset).
+    pose proof (c_pos _ Hc) as Hpos. pose proof (c_seen _ Hc) as Hsn.
+    destruct (c_layer _ Hc) as (_ & Hl1 & _).
+    replace (it st) with (S (it st - 1)) in Hsn |- * by lia.
+    eapply step_good; eauto. rewrite Hal. reflexivity.
+  Qed.
+
+  Lemma expand_batched_good st :
+    Core st -> batched cfg st = true ->
+    good (it st) (fst (expand_batched G cfg st)) (snd (expand_batched G cfg st)).
+  Proof.
+    intros Hc Hb. destruct (expand_batched G cfg st) as [l2 l2h] eqn:E. cbn [fst snd].
+    pose proof (c_pos _ Hc) as Hpos. pose proof (c_seen _ Hc) as Hsn.
+    destruct (c_layer _ Hc) as (_ & Hl1 & _ & Hperm).
+    apply (expand_batched_spec G U U_closed NoColl IdOK) in E;
+      [|apply inv_layer1_U; exact Hc | apply inv_seen_sorted; exact Hc |].
+    - destruct E as (Hnd & Hal & Hs & Hset).
+      replace (it st) with (S (it st - 1)) in Hsn |- * by lia.
+      eapply step_good; eauto.
+    - unfold batched in Hb. apply andb_true_iff in Hb. destruct Hb as [_ Hb].
+      apply Z.ltb_lt in Hb. unfold lenZ in *.
+      rewrite (Permutation_length Hperm), map_length.
+      assert (1 <= (Z.of_nat (length (layer1 st)) + batch_size cfg - 1) / batch_size cfg)%Z.
+      { apply Z.div_le_lower_bound; lia. }
+      lia.
+  Qed.
+
+  Lemma bfs_iter_post st : Inv st -> Post (it st) (bfs_iter G cfg st).
+  Proof.
+    intros Hinv. rewrite bfs_iter_eq. destruct (batched cfg st) eqn:Eb.
+    - apply iter_tail_post; auto. apply expand_batched_good; auto. apply Hinv.
+    - pose proof (expand_plain_good st (proj1 Hinv)) as Hg.
+      destruct (ret_edges cfg).
+      + apply (iter_tail_post (edge_st G st (snd (expand_plain G st)))).
+        * apply inv_edge_st. exact Hinv.
+        * exact Hg.
+      + apply iter_tail_post; auto.
+  Qed.
+
+  (** ** The whole loop *)
+
+  Definition LoopPost (i : nat) (n : nat) (r : bfs_st + bfs_st * bool) : Prop :=
+    match r with
+    | inl st' => Inv st' /\ it st' = i + n
+    | inr (st', true) => BreakT st' /\ it st' < i + n
+    | inr (st', false) => BreakF st' /\ it st' <= i + n
+    end.
+
+  Lemma loop_post n : forall st, Inv st -> LoopPost (it st) n (loop_nat (bfs_iter G cfg) n st).
+  Proof.
+    induction n as [|n IH]; intros st Hinv.
+    - simpl. split; [exact Hinv | lia].
+    - cbn [loop_nat]. pose proof (bfs_iter_post st Hinv) as HP.
+      destruct (bfs_iter G cfg st) as [st1 | [st1 [|]]]; unfold Post in HP.
+      + destruct HP as [H1 H2]. specialize (IH st1 H1). rewrite H2 in IH.
+        destruct (loop_nat (bfs_iter G cfg) n st1) as [st2 | [st2 [|]]]; unfold LoopPost in *;
+          (split; [tauto | lia]).
+      + unfold LoopPost. split; [tauto | lia].
+      + unfold LoopPost. split; [tauto | lia].
+  Qed.
+
+  (** ** The result record *)
+
+  Lemma bfs_finish_fields st b o :
+    bfs_finish cfg st b = Ok o ->
+    completed o = b /\ sizes o = rev (sizes_rev st) /\
+    layers o = (if b && negb (existsb (fun '(k, _) => k =? length (rev (sizes_rev st)) - 1)
+                                      (rev (stored_rev st)))
+                then rev (stored_rev st) ++ [(length (rev (sizes_rev st)) - 1, layer1 st)]
+                else rev (stored_rev st)) /\
+    layer_hashes o = rev (if ret_hashes cfg && negb b then layer1_h st :: all_h_rev st
+                          else all_h_rev st) /\
+    callback_trace o = rev (trace_rev st).
+  Proof.
+    unfold bfs_finish. cbv zeta.
+    match goal with |- bind ?X _ = _ -> _ => destruct X as [e|e] end; simpl bind; intros H.
+    - inversion H; subst o; clear H. cbn [completed sizes layers layer_hashes callback_trace].
+      repeat split; reflexivity.
+    - discriminate.
+  Qed.
+
+  Lemma bfs_finish_true_ok st : exists o, bfs_finish cfg st true = Ok o /\ completed o = true.
+  Proof.
+    unfold bfs_finish. cbv zeta.
+    destruct (ret_edges cfg); [destruct (e_starts_rev st); [|destruct (e_ends_rev st)]|];
+      simpl bind; eexists; split; reflexivity.
+  Qed.
+
+  (** ** Final states *)
+
+  Definition TraceSome (st : bfs_st) : Prop :=
+    exists m, m <= it st - 1 /\ rev (trace_rev st) = seq 1 m.
+
+  Definition FinF (st : bfs_st) : Prop :=
+    Core st /\ HashesUpto st (it st - 1) /\ explore_ok (it st - 2) /\ TraceSome st /\
+    it st - 1 <= maxd /\
+    (it st - 1 = maxd \/
+     (max_explore cfg <= Z.of_nat (length (L (it st - 1))))%Z \/
+     exists f, stop cfg = Some f /\ f (it st - 1) (layer1 st) (layer1_h st) = true).
+
+  Definition FinT (st : bfs_st) : Prop :=
+    Core st /\ HashesUpto st (it st) /\ explore_ok (it st - 1) /\ TraceSome st /\
+    it st - 1 <= maxd /\ L (it st) = [].
+
+  Lemma TraceIs_some st m : TraceIs st m -> m <= it st - 1 -> TraceSome st.
+  Proof.
+    unfold TraceIs, TraceSome. intros H Hm. destruct (stop cfg).
+    - exists m. auto.
+    - exists 0. split; [lia | exact H].
+  Qed.
+
+  Lemma loop_final :
+    match loop_N (bfs_iter G cfg) (max_diameter cfg) (bfs_init G starts) with
+    | inl st => FinF st
+    | inr (st, true) => FinT st
+    | inr (st, false) => FinF st
+    end.
+  Proof.
+    rewrite loop_N_nat. destruct init_inv as [Hinv Hit].
+    pose proof (loop_post maxd _ Hinv) as HP. rewrite Hit in HP.
+    destruct (loop_nat (bfs_iter G cfg) maxd (bfs_init G starts)) as [st | [st [|]]];
+      unfold LoopPost in HP.
+    - destruct HP as [(Hc & Hh & Ht & He) Hi]. split; [exact Hc|]. split; [exact Hh|]. split.
+      { intros j H1 H2. apply He; lia. }
+      split; [eapply TraceIs_some; eauto|]. split; [lia|]. left. lia.
+    - destruct HP as [(Hc & Hh & Ht & He & HL0) Hi]. split; [exact Hc|]. split; [exact Hh|].
+      split; [exact He|]. split; [eapply TraceIs_some; eauto|]. split; [lia | exact HL0].
+    - destruct HP as [(Hc & Hh & He & Hd) Hi]. split; [exact Hc|]. split; [exact Hh|].
+      split; [exact He|]. split; [|split; [lia|]].
+      + destruct Hd as [[Ht _] | [Ht _]]; eapply TraceIs_some; eauto; lia.
+      + destruct Hd as [[_ Hm] | [_ Hf]]; auto.
+  Qed.
+
+  (** ** The documented contract *)
+
+  Definition prefix_spec (o : bfs_out) : Prop :=
+    let D := length (sizes o) in
+    1 <= D /\
+    sizes o = map (fun i => length (L i)) (seq 0 D) /\
+    (forall i, i < D -> L i <> []) /\
+    (D - 1 <= N.to_nat (max_diameter cfg))%nat /\
+    (completed o = true -> L D = []) /\
+    (completed o = false ->
+        (D - 1 = N.to_nat (max_diameter cfg))%nat
+        \/ (max_explore cfg <= Z.of_nat (length (L (D - 1))))%Z
+        \/ (exists f l lh, stop cfg = Some f /\ f (D - 1)%nat l lh = true /\ set_eq l (L (D - 1)))) /\
+    (forall j, (1 <= j)%nat -> (j < D - 1)%nat -> (Z.of_nat (length (L j)) < max_explore cfg)%Z) /\
+    (forall k l, In (k, l) (layers o) -> (k < D)%nat /\ NoDup l /\ set_eq l (L k)) /\
+    NoDup (map fst (layers o)) /\
+    (forall k, (k < D)%nat ->
+        ((exists l, In (k, l) (layers o)) <->
+         k = 0%nat \/ (Z.of_nat (length (L k)) <= max_store cfg)%Z \/ (completed o = true /\ k = (D - 1)%nat))) /\
+    (ret_hashes cfg = false -> layer_hashes o = []) /\
+    (ret_hashes cfg = true -> length (layer_hashes o) = D /\
+        forall i, (i < D)%nat ->
+          let hs := nth i (layer_hashes o) [] in
+          StronglySorted Z.lt hs /\ length hs = length (L i) /\
+          (forall h, In h hs <-> exists t, In t (L i) /\ hashf G t = h)) /\
+    callback_trace o = seq 1 (length (callback_trace o)) /\ (length (callback_trace o) <= D - 1)%nat.
+
+  Lemma core_D st : Core st -> length (rev (sizes_rev st)) = it st.
+  Proof. intros Hc. rewrite (c_sizes _ Hc), map_length, seq_length. reflexivity. Qed.
+
+  Lemma finish_false st o : FinF st -> bfs_finish cfg st false = Ok o -> prefix_spec o.
+  Proof.
+    intros (Hc & Hh & He & (m & Hm & Htr) & Hd & Hwhy) Hfin.
+    apply bfs_finish_fields in Hfin. destruct Hfin as (Hcomp & Hsz & Hlay & Hlh & Hct).
+    cbn [andb negb] in Hlay, Hlh. rewrite andb_true_r in Hlh.
+    pose proof (core_D st Hc) as HD. pose proof (c_pos _ Hc) as Hpos.
+    unfold prefix_spec. rewrite Hsz, HD, Hcomp, Hlay, Hlh, Hct. cbv zeta.
+    split; [exact Hpos|]. split; [apply (c_sizes _ Hc)|]. split; [apply (c_ne _ Hc)|].
+    split; [exact Hd|]. split; [discriminate|]. split.
+    { intros _. destruct Hwhy as [H | [H | (f & Hf & Hft)]]; auto.
+      right. right. exists f, (layer1 st), (layer1_h st). split; [exact Hf|]. split; [exact Hft|].
+      destruct (c_layer _ Hc) as (_ & Hset & _). exact Hset. }
+    split. { intros j H1 H2. apply He; lia. }
+    split. { intros k l Hin. apply in_rev in Hin. apply (c_stored1 _ Hc). exact Hin. }
+    split. { rewrite map_rev. apply NoDup_rev. apply (c_stored2 _ Hc). }
+    split.
+    { intros k Hk. pose proof (c_stored3 _ Hc k Hk) as H3. split.
+      - intros (l & Hin). apply in_rev in Hin.
+        assert (Hex : exists l, In (k, l) (stored_rev st)) by eauto. apply H3 in Hex. tauto.
+      - intros Hor. assert (Hor' : k = 0 \/ (Z.of_nat (length (L k)) <= max_store cfg)%Z).
+        { destruct Hor as [H | [H | [Hx _]]]; [auto | auto | discriminate]. }
+        apply H3 in Hor'. destruct Hor' as (l & Hin). exists l. apply in_rev in Hin. exact Hin. }
+    unfold HashesUpto in Hh. split.
+    { intros Hr. rewrite Hr in *. rewrite Hh. reflexivity. }
+    split.
+    { intros Hr. rewrite Hr in *. simpl rev.
+      assert (HH : HL (it st - 1) (layer1_h st)) by (eapply good_HL; apply (c_layer _ Hc)).
+      pose proof (HashList_snoc _ _ _ Hh HH) as HS.
+      replace (S (it st - 1)) with (it st) in HS by lia. exact HS. }
+    rewrite Htr, seq_length. split; [reflexivity | exact Hm].
+  Qed.
+
+  Lemma existsb_key (stored : list (nat * list state)) (n : nat) :
+    existsb (fun '(k, _) => k =? n) stored = true <-> In n (map fst stored).
+  Proof.
+    rewrite existsb_exists, in_map_iff. split.
+    - intros ([k l] & Hin & Hk). apply Nat.eqb_eq in Hk. subst k. exists (n, l). auto.
+    - intros ([k l] & Hk & Hin). simpl in Hk. subst k. exists (n, l). split; auto.
+      apply Nat.eqb_refl.
+  Qed.
+
+  Lemma finish_true st o : FinT st -> bfs_finish cfg st true = Ok o -> prefix_spec o.
+  Proof.
+    intros (Hc & Hh & He & (m & Hm & Htr) & Hd & Hempty) Hfin.
+    apply bfs_finish_fields in Hfin. destruct Hfin as (Hcomp & Hsz & Hlay & Hlh & Hct).
+    cbn [andb negb] in Hlay, Hlh. rewrite andb_false_r in Hlh.
+    pose proof (core_D st Hc) as HD. pose proof (c_pos _ Hc) as Hpos.
+    rewrite HD in Hlay.
+    destruct (c_layer _ Hc) as (Hnd1 & Hset1 & _).
+    unfold prefix_spec. rewrite Hsz, HD, Hcomp, Hlh, Hct. cbv zeta.
+    split; [exact Hpos|]. split; [apply (c_sizes _ Hc)|]. split; [apply (c_ne _ Hc)|].
+    split; [exact Hd|]. split; [intros _; exact Hempty|]. split; [discriminate|].
+    split. { intros j H1 H2. apply He; lia. }
+    (* the stored layers *)
+    assert (Hlayers :
+      (forall k l, In (k, l) (layers o) -> k < it st /\ NoDup l /\ set_eq l (L k)) /\
+      NoDup (map fst (layers o)) /\
+      (forall k, k < it st ->
+        ((exists l, In (k, l) (layers o)) <->
+         k = 0 \/ (Z.of_nat (length (L k)) <= max_store cfg)%Z \/ (true = true /\ k = it st - 1)))).
+    { rewrite Hlay.
+      destruct (existsb (fun '(k, _) => k =? it st - 1) (rev (stored_rev st))) eqn:Eex; cbn [negb].
+      - apply existsb_key in Eex. rewrite map_rev, <- in_rev in Eex.
+        split; [|split].
+        + intros k l Hin. apply in_rev in Hin. apply (c_stored1 _ Hc). exact Hin.
+        + rewrite map_rev. apply NoDup_rev. apply (c_stored2 _ Hc).
+        + intros k Hk. pose proof (c_stored3 _ Hc k Hk) as H3. split.
+          * intros (l & Hin). apply in_rev in Hin.
+            assert (Hex : exists l, In (k, l) (stored_rev st)) by eauto. apply H3 in Hex. tauto.
+          * intros Hor.
+            assert (Hex : exists l, In (k, l) (stored_rev st)).
+            { destruct Hor as [H | [H | [_ H]]]; [apply H3; auto | apply H3; auto |].
+              subst k. apply in_map_iff in Eex. destruct Eex as ([k l] & Hk' & Hin).
+              simpl in Hk'. subst k. eauto. }
+            destruct Hex as (l & Hin). exists l. apply in_rev in Hin. exact Hin.
+      - assert (Hnot : ~ In (it st - 1) (map fst (stored_rev st))).
+        { intros Hin. rewrite in_rev, <- map_rev in Hin. apply existsb_key in Hin. congruence. }
+        split; [|split].
+        + intros k l Hin. apply in_app_iff in Hin. destruct Hin as [Hin | [Heq | []]].
+          * apply in_rev in Hin. apply (c_stored1 _ Hc). exact Hin.
+          * inversion Heq; subst k l. split; [lia | split; assumption].
+        + rewrite map_app, map_rev. simpl map. apply NoDup_app_intro.
+          * apply NoDup_rev. apply (c_stored2 _ Hc).
+          * constructor; [intros [] | constructor].
+          * intros t Ht1 [<- | []]. apply in_rev in Ht1. contradiction.
+        + intros k Hk. pose proof (c_stored3 _ Hc k Hk) as H3. split.
+          * intros (l & Hin). apply in_app_iff in Hin. destruct Hin as [Hin | [Heq | []]].
+            -- apply in_rev in Hin.
+               assert (Hex : exists l, In (k, l) (stored_rev st)) by eauto. apply H3 in Hex. tauto.
+            -- inversion Heq. auto.
+          * intros [H | [H | [_ H]]].
+            -- destruct (proj2 H3 (or_introl H)) as (l & Hin). exists l.
+               apply in_app_iff. left. apply in_rev in Hin. exact Hin.
+            -- destruct (proj2 H3 (or_intror H)) as (l & Hin). exists l.
+               apply in_app_iff. left. apply in_rev in Hin. exact Hin.
+            -- subst k. exists (layer1 st). apply in_app_iff. right. simpl. auto. }
+    destruct Hlayers as (HA & HB & HC).
+    split; [exact HA|]. split; [exact HB|]. split; [exact HC|].
+    unfold HashesUpto in Hh. split.
+    { intros Hr. rewrite Hr in *. rewrite Hh. reflexivity. }
+    split.
+    { intros Hr. rewrite Hr in *. exact Hh. }
+    rewrite Htr, seq_length. split; [reflexivity | exact Hm].
+  Qed.
+
+  (** ** Main theorems *)
+
+  Lemma bfs_prefix_aux o : bfs G cfg starts = Ok o -> prefix_spec o.
+  Proof.
+    unfold bfs. pose proof loop_final as HF.
+    destruct (loop_N (bfs_iter G cfg) (max_diameter cfg) (bfs_init G starts)) as [st | [st [|]]].
+    - apply finish_false. exact HF.
+    - apply finish_true. exact HF.
+    - apply finish_false. exact HF.
+  Qed.
+
+  (* C09: whatever the limits, the result is the documented prefix of the true layers *)
+  Theorem bfs_prefix o : bfs G cfg starts = Ok o ->
+    let D := length (sizes o) in
+    1 <= D /\
+    sizes o = map (fun i => length (L i)) (seq 0 D) /\
+    (forall i, i < D -> L i <> []) /\
+    (D - 1 <= N.to_nat (max_diameter cfg))%nat /\
+    (completed o = true -> L D = []) /\
+    (completed o = false ->
+        (D - 1 = N.to_nat (max_diameter cfg))%nat
+        \/ (max_explore cfg <= Z.of_nat (length (L (D - 1))))%Z
+        \/ (exists f l lh, stop cfg = Some f /\ f (D - 1)%nat l lh = true /\ set_eq l (L (D - 1)))) /\
+    (forall j, (1 <= j)%nat -> (j < D - 1)%nat -> (Z.of_nat (length (L j)) < max_explore cfg)%Z) /\
+    (* stored layers are the true layers, stored exactly per the threshold rule *)
+    (forall k l, In (k, l) (layers o) -> (k < D)%nat /\ NoDup l /\ set_eq l (L k)) /\
+    NoDup (map fst (layers o)) /\
+    (forall k, (k < D)%nat ->
+        ((exists l, In (k, l) (layers o)) <->
+         k = 0%nat \/ (Z.of_nat (length (L k)) <= max_store cfg)%Z \/ (completed o = true /\ k = (D - 1)%nat))) /\
+    (* per-layer hashes: one strictly sorted list per reported layer, the hashes of exactly that layer *)
+    (ret_hashes cfg = false -> layer_hashes o = []) /\
+    (ret_hashes cfg = true -> length (layer_hashes o) = D /\
+        forall i, (i < D)%nat ->
+          let hs := nth i (layer_hashes o) [] in
+          StronglySorted Z.lt hs /\ length hs = length (L i) /\
+          (forall h, In h hs <-> exists t, In t (L i) /\ hashf G t = h)) /\
+    (* the callback is called on layers 1,2,... in order, once each *)
+    callback_trace o = seq 1 (length (callback_trace o)) /\ (length (callback_trace o) <= D - 1)%nat.
+  Proof. exact (bfs_prefix_aux o). Qed.
+
+  (* C01: an exhaustive run *)
+  Corollary bfs_completed_correct o : bfs G cfg starts = Ok o -> completed o = true ->
+    let D := length (sizes o) in
+    sizes o = map (fun i => length (L i)) (seq 0 D) /\ (forall i, (i < D)%nat -> L i <> []) /\
+    (forall i, (D <= i)%nat -> L i = []) /\                         (* nothing lies beyond: D-1 is the eccentricity *)
+    (forall k l, In (k, l) (layers o) -> NoDup l /\ set_eq l (L k)) /\
+    (exists l, In ((D - 1)%nat, l) (layers o)) /\ (exists l, In (0%nat, l) (layers o)).
+  Proof.
+    intros Hb Hcomp. pose proof (bfs_prefix o Hb) as HP. cbv zeta in *.
+    destruct HP as (H1 & H2 & H3 & _ & H5 & _ & _ & H8 & _ & H10 & _).
+    split; [exact H2|]. split; [exact H3|]. split.
+    { intros i Hi. eapply empty_layer_stays; [apply H5; exact Hcomp | exact Hi]. }
+    split. { intros k l Hin. apply H8 in Hin. tauto. }
+    split.
+    - apply H10; [lia|]. right. right. auto.
+    - apply H10; [lia|]. left. reflexivity.
+  Qed.
+
+  (* C01: termination with completion when no limit can fire *)
+  Theorem bfs_completes :
+    stop cfg = None -> (forall i, (Z.of_nat (length (L i)) < max_explore cfg)%Z) ->
+    (exists d, (d <= N.to_nat (max_diameter cfg))%nat /\ L d = []) ->
+    exists o, bfs G cfg starts = Ok o /\ completed o = true.
+  Proof.
+    intros Hstop Hexp (d & Hd & Hempty). unfold bfs. pose proof loop_final as HF.
+    destruct (loop_N (bfs_iter G cfg) (max_diameter cfg) (bfs_init G starts)) as [st | [st [|]]].
+    - exfalso. destruct HF as (Hc & _ & _ & _ & Hle & Hwhy).
+      pose proof (c_pos _ Hc) as Hpos.
+      destruct Hwhy as [H | [H | (f & Hf & _)]].
+      + apply (c_ne _ Hc (it st - 1)); [lia|].
+        eapply empty_layer_stays; [exact Hempty | lia].
+      + specialize (Hexp (it st - 1)). lia.
+      + congruence.
+    - apply bfs_finish_true_ok.
+    - exfalso. destruct HF as (Hc & _ & _ & _ & Hle & Hwhy).
+      pose proof (c_pos _ Hc) as Hpos.
+      destruct Hwhy as [H | [H | (f & Hf & _)]].
+      + apply (c_ne _ Hc (it st - 1)); [lia|].
+        eapply empty_layer_stays; [exact Hempty | lia].
+      + specialize (Hexp (it st - 1)). lia.
+      + congruence.
+  Qed.
 End BfsCorrect.
+
+Check bfs_prefix.
+Check bfs_completed_correct.
+Check bfs_completes.
